@@ -300,7 +300,11 @@ def _check_graph(lab, i, desc, out, phase):
             lcs = sorted(G.lowest_common(g, a, b))
             if 'res' in results and results['res'][1][0] == 'ok':
                 key, r = results['res']
-                expect_value('res', key, r, [info(l) for l in lcs], ic['mode'])
+                # documented: the maximum information content over the common subsumers,
+                # "more efficiently computed using the lowest common hypernyms" - so the
+                # maximum over either set, not the value of just any lowest common hypernym
+                expect_value('res', key, r, [max(info(l) for l in lcs),
+                                             max(info(c) for c in com)], ic['mode'])
             if 'jcn' in results and results['jcn'][1][0] == 'ok':
                 key, r = results['jcn']
                 ok = False
